@@ -17,7 +17,18 @@ def c06(tier):
                  "verif-tag bridge tests in cmd/go-critic and cmd/gocritic, analyzer.VerifFilter hook"])
 
 
-CHECKS = {"C06": c06}
+def c16(tier):
+    vlib.standard(
+        "C16", tier, "c16", ["Properties_C16.v", "Proofs_Cli.v"],
+        assume=[
+            "locations are absolute (begin with '/'): token.Position.String of files loaded by go/packages",
+            "CommentGroup.Text() of go/ast is an input of the model (computed by the harness), not modelled",
+            "os.Getwd failure and Windows path separators are not covered",
+        ],
+        trusted=["verif-tag bridge tests (ops shorten, slash, isgen)", "go/packages loader order is abstracted: e2e lines are compared as sorted lists"])
+
+
+CHECKS = {"C06": c06, "C16": c16}
 
 
 def run(prop, tier):
